@@ -1337,6 +1337,204 @@ Section RT.
       repeat (rewrite blen_app || rewrite blen_cons). lia.
   Qed.
 
+  (** ------------------------------------------------------------ one-line definitions ending in " ;" *)
+
+  Lemma punct_semi : punct 59. Proof. repeat split; try reflexivity; unfold ascii; lia. Qed.
+  Lemma punct_quote : punct 34. Proof. repeat split; try reflexivity; unfold ascii; lia. Qed.
+
+  Ltac side :=
+    first [ assumption | exact numterm_sp | exact numterm_lf | exact ws32 | exact ws_def
+          | exact punct_semi | exact punct_colon | exact punct_comma | exact punct_minus | exact punct_quote
+          | match goal with |- punct ?p => exact (proj1 (punct_of p ltac:(cbn; tauto))) end
+          | reflexivity | lia | (unfold ascii; lia) | discriminate ].
+
+  (** the final " ;" followed by the line end: the parser is left at the start of the next line (shape A) *)
+  Lemma semi_tail : forall rest last P line K ll, (1 <= F)%nat -> 0 <= K ->
+    p_token il id F c_semi (PS (mkS (59 :: 10 :: rest) last P line K ll 32 ws_default) None)
+    = POk tt (PS (mkS rest [10] (P + 1 + 1) (line + 1) 0 (K + 1 + 1) 10 ws_default) None).
+  Proof. intros. rewrite p_token_ws by side. reflexivity. Qed.
+
+  Lemma uint_value_digit : forall d, uint_value [d] = d - 48.
+  Proof. intros. unfold uint_value. cbn [fold_left]. lia. Qed.
+
+  Lemma wf_enum_uint : forall t mx, wf_enum t mx -> 0 <= mx <= 9 -> wf_uint t /\ uint_value t <= mx /\ length t = 1%nat.
+  Proof.
+    intros t mx (d & -> & Hd) Hm. rewrite uint_value_digit. split; [|split; [lia|reflexivity]].
+    split; [|rewrite uint_value_digit; lia]. exists d, []. split; [reflexivity|].
+    split; [unfold is_decimal; apply andb_true_iff; split; [apply Z.leb_le|apply Z.leb_le]; lia|].
+    split; [constructor|right; reflexivity].
+  Qed.
+
+  (** signalValueType() / environmentVariableType() *)
+  Lemma p_small_enum_ws : forall t mx c r last pos l k ll,
+    wf_enum t mx -> 0 <= mx <= 9 -> numterm c -> (3 < F)%nat -> 0 <= k ->
+    p_small_enum il id F mx (PS (mkS (t ++ c :: r) last pos l k ll 32 ws_default) None)
+    = POk (uint_value t) (PS (stepS c r (pos + blen t) l (k + blen t) ll c ws_default) None).
+  Proof.
+    intros t mx c r last pos l k ll Ht Hm Hc HF Hk. destruct (wf_enum_uint t mx Ht Hm) as (Hu & Hle & Hlen).
+    pose proof (parse_uint_value t Hu) as Hpv. destruct Hu as ((d0 & tl & -> & Hd & Htl & Hz) & _).
+    unfold p_small_enum, bind. rewrite peek_token_scan.
+    rewrite (scan_ws_uint 32); try assumption; [|exact ws32|exact ws_def|cbn [length] in *; lia].
+    unfold p_uint, bind. rewrite next_token_look. cbn [t_typ t_txt]. change (TInt =? TInt) with true. cbn [negb].
+    rewrite Hpv. unfold ret at 1. assert (E : (uint_value (d0 :: tl) <=? mx) = true) by (apply Z.leb_le; lia). rewrite E.
+    unfold ret. f_equal. f_equal. apply stepS_eq; rewrite blen_cons; lia.
+  Qed.
+
+  Lemma access_name_valid : forall a, 0 <= a <= 3 ->
+    ident_valid (access_name a) = true /\ access_type_of (access_name a) = Some (access_of a).
+  Proof.
+    intros a Ha. assert (H : a = 0 \/ a = 1 \/ a = 2 \/ a = 3) by lia.
+    destruct H as [->|[->|[->| ->]]]; split; reflexivity.
+  Qed.
+
+  Lemma p_access_type_ws : forall a c r last pos l k ll,
+    0 <= a <= 3 -> ascii c -> idc c = false -> (22 < F)%nat -> 0 <= k ->
+    p_access_type il id F (PS (mkS (access_name a ++ c :: r) last pos l k ll 32 ws_default) None)
+    = POk (access_of a) (PS (stepS c r (pos + blen (access_name a)) l (k + blen (access_name a)) ll c ws_default) None).
+  Proof.
+    intros a c r last pos l k ll Ha Hc Hnc HF Hk. destruct (access_name_valid a Ha) as (Hv & Hat).
+    destruct (ident_valid_shape _ Hv) as (c0 & t & En & H0 & Ht).
+    assert (Hlen : (length (access_name a) <= 18)%nat).
+    { assert (H : a = 0 \/ a = 1 \/ a = 2 \/ a = 3) by lia. destruct H as [->|[->|[->| ->]]]; cbn; lia. }
+    unfold p_access_type, bind. rewrite peek_token_scan. rewrite En.
+    rewrite (scan_ws_ident 32); try assumption; [|exact ws32|exact ws_def|rewrite En in Hlen; cbn [length] in Hlen; lia].
+    rewrite p_identifier_look; [|reflexivity|cbn [t_txt]; rewrite <- En; exact Hv]. cbn [t_txt]. rewrite <- En, Hat.
+    unfold ret. f_equal. f_equal. apply stepS_eq; rewrite En, blen_cons; lia.
+  Qed.
+
+  (** value description:  <space> [-]digits <space> "text"  followed by [c2] *)
+  Lemma value_desc_ws : forall v c2 r last pos l k ll,
+    wf_value v -> ascii c2 -> (length (print_num (fst v)) + length (snd v) + 6 < F)%nat -> 0 <= k ->
+    parse_value_description il id F
+      (PS (mkS (print_num (fst v) ++ 32 :: 34 :: snd v ++ 34 :: c2 :: r) last pos l k ll 32 ws_default) None)
+    = POk {| vd_pos := {| p_line := l; p_column := k + 1; p_offset := pos |}; vd_value := num_bits (fst v);
+             vd_description := snd v |}
+          (PS (stepS c2 r (pos + blen (print_num (fst v)) + blen (snd v) + 3) l (k + blen (print_num (fst v)) + blen (snd v) + 3) ll c2 ws_default) None).
+  Proof.
+    intros [[neg ds] s] c2 r last pos l k ll (((d0 & t & Hds & Hd & Ht & Hz) & Hpf) & Hs) Hc2 HF Hk.
+    cbn [fst snd n_neg n_digits] in *. subst ds. unfold print_num, num_bits in *. cbn [n_neg n_digits] in *.
+    destruct (parse_float (d0 :: t)) as [bits|] eqn:Epf; [|contradiction Hpf; reflexivity].
+    destruct (decimal_ge d0 Hd) as (H33 & Ha0 & H10).
+    pose proof (blen_nonneg t) as Hnt. pose proof (blen_nonneg s) as Hns.
+    unfold parse_value_description. unfold bind at 1. rewrite peek_token_scan. destruct neg; cbn [app]; cbn [app length] in HF.
+    - rewrite (scan_ws_punct 32) by side. unfold bind at 1.
+      unfold p_float, optional_minus. unfold bind at 1. unfold bind at 1. rewrite peek_token_look.
+      cbn [t_typ]. change (45 =? c_minus) with true. cbv beta iota. unfold bind at 1.
+      erewrite p_token_look by reflexivity. unfold ret at 1. unfold bind at 1. rewrite next_token_scan.
+      rewrite stepS_plain by assumption.
+      rewrite scan_direct_uint; try assumption; try lia; [|exact ws_def|exact numterm_sp].
+      cbn [t_typ t_txt]. change (TInt =? TInt) with true. cbn [negb andb]. rewrite Epf. unfold ret at 1.
+      rewrite stepS_plain by discriminate. unfold bind at 1.
+      rewrite p_string_ws by side. unfold ret. cbn [t_pos]. f_equal. f_equal. apply stepS_eq; rewrite !blen_cons; lia.
+    - change (d0 :: t ++ 32 :: 34 :: s ++ 34 :: c2 :: r) with ((d0 :: t) ++ 32 :: 34 :: s ++ 34 :: c2 :: r).
+      rewrite (scan_ws_uint 32); try assumption; [|exact ws32|exact ws_def|lia|exact numterm_sp]. unfold bind at 1.
+      unfold p_float, optional_minus. unfold bind at 1. unfold bind at 1. rewrite peek_token_look.
+      cbn [t_typ]. change (TInt =? c_minus) with false. cbv beta iota. unfold ret at 1. unfold bind at 1.
+      rewrite next_token_look. cbn [t_typ t_txt]. change (TInt =? TInt) with true. cbn [negb andb]. rewrite Epf. unfold ret at 1.
+      rewrite stepS_plain by discriminate. unfold bind at 1.
+      rewrite p_string_ws by side. unfold ret. cbn [t_pos]. f_equal. f_equal. apply stepS_eq; rewrite !blen_cons; lia.
+  Qed.
+
+  (** operations that start with a peek (or a next) do not care whether the token is already peeked *)
+  Lemma next_after_peek : forall st t st1, peek_token st = POk t st1 -> next_token st1 = next_token st.
+  Proof.
+    intros st t st1 H. unfold Parser.peek_token, Parser.next_token in *. destruct (p_look st) as [t0|] eqn:El.
+    - injection H as <- <-. rewrite El. reflexivity.
+    - unfold lift_s. destruct (scan il id F (p_sc st)) as [[t1 s1]|pp kk|]; try discriminate. injection H as <- <-.
+      cbn [p_look p_sc]. rewrite El. reflexivity.
+  Qed.
+
+  Lemma bind_peek_after_peek : forall st t st1, peek_token st = POk t st1 ->
+    forall A (f : token -> M A), bind peek_token f st1 = bind peek_token f st.
+  Proof. intros st t st1 H A f. unfold bind. rewrite (peek_token_idem _ _ _ H), H. reflexivity. Qed.
+
+  Lemma bind_next_after_peek : forall st t st1, peek_token st = POk t st1 ->
+    forall A (f : token -> M A), bind next_token f st1 = bind next_token f st.
+  Proof. intros st t st1 H A f. unfold bind. rewrite (next_after_peek _ _ _ H). reflexivity. Qed.
+
+  Lemma pvd_after_peek : forall st t st1, peek_token st = POk t st1 ->
+    parse_value_description il id F st1 = parse_value_description il id F st.
+  Proof. intros st t st1 H. exact (bind_peek_after_peek _ _ _ H _ _). Qed.
+
+  Lemma small_enum_after_peek : forall mx st t st1, peek_token st = POk t st1 ->
+    p_small_enum il id F mx st1 = p_small_enum il id F mx st.
+  Proof. intros mx st t st1 H. exact (bind_peek_after_peek _ _ _ H _ _). Qed.
+
+  Lemma p_string_after_peek : forall st t st1, peek_token st = POk t st1 -> p_string il id F st1 = p_string il id F st.
+  Proof. intros st t st1 H. exact (bind_next_after_peek _ _ _ H _ _). Qed.
+
+  Lemma tx_loop_after_peek : forall f racc st t st1, peek_token st = POk t st1 ->
+    transmitters_loop il id F f racc st1 = transmitters_loop il id F f racc st.
+  Proof.
+    intros f racc st t st1 H. destruct f as [|f]; [reflexivity|]. cbn [transmitters_loop].
+    exact (bind_peek_after_peek _ _ _ H _ _).
+  Qed.
+
+  Lemma vd_loop_after_peek : forall f racc st t st1, peek_token st = POk t st1 ->
+    value_descriptions_loop il id F f racc st1 = value_descriptions_loop il id F f racc st.
+  Proof.
+    intros f racc st t st1 H. destruct f as [|f]; [reflexivity|]. cbn [value_descriptions_loop].
+    exact (bind_peek_after_peek _ _ _ H _ _).
+  Qed.
+
+  (** the first token of a value description is a number or a minus sign *)
+  Lemma value_peek : forall v c r last pos l k ll, wf_value v -> ascii c -> (length (print_num (fst v)) + 3 < F)%nat -> 0 <= k ->
+    exists t st1, peek_token (PS (mkS (print_num (fst v) ++ 32 :: c :: r) last pos l k ll 32 ws_default) None) = POk t st1
+                  /\ (t_typ t = TInt \/ t_typ t = 45).
+  Proof.
+    intros [[neg ds] s] c r last pos l k ll (((d0 & t & Hds & Hd & Ht & Hz) & _) & _) Hc HF Hk.
+    cbn [fst snd n_neg n_digits] in *. subst ds. unfold print_num in *. cbn [n_neg n_digits] in *.
+    destruct (decimal_ge d0 Hd) as (H33 & Ha0 & H10). rewrite peek_token_scan. destruct neg; cbn [app]; cbn [app length] in HF.
+    - rewrite (scan_ws_punct 32) by side. eexists; eexists; split; [reflexivity|right; reflexivity].
+    - change (d0 :: t ++ 32 :: c :: r) with ((d0 :: t) ++ 32 :: c :: r).
+      rewrite (scan_ws_uint 32); try assumption; [|exact ws32|exact ws_def|lia|exact numterm_sp].
+      eexists; eexists; split; [reflexivity|left; reflexivity].
+  Qed.
+
+  Lemma print_values_head : forall vs X, exists T, print_values vs ++ 32 :: X = 32 :: T.
+  Proof. intros vs X. destruct vs as [|v vs]; cbn; eexists; reflexivity. Qed.
+
+  (** the value description loop; it stops at the ';' which stays in the lookahead *)
+  Lemma values_run : forall vs f racc TAIL c2 r last P l K ll off,
+    32 :: TAIL = print_values vs ++ 32 :: 59 :: c2 :: r -> Forall wf_value vs -> ascii c2 ->
+    (length vs < f)%nat -> (length (print_values vs) + 8 < F)%nat -> K = P - off -> 0 <= K ->
+    exists tk, value_descriptions_loop il id F f racc (PS (mkS TAIL last P l K ll 32 ws_default) None)
+               = POk (rev racc ++ elab_values l off P vs)
+                     (PS (stepS c2 r (P + blen (print_values vs) + 1) l (K + blen (print_values vs) + 1) ll c2 ws_default) (Some tk))
+               /\ t_typ tk = 59.
+  Proof.
+    induction vs as [|v vs IH]; intros f racc TAIL c2 r last P l K ll off HT Hw Hc2 Hf HF HK HK0.
+    - cbn [print_values map concat app] in HT. injection HT as ->. destruct f as [|f]; [lia|].
+      cbn [value_descriptions_loop]. unfold bind at 1.
+      destruct (peek_ws_punct 32 59 c2 r last P l K ll ws_default) as (tk & Ep & Ety); try side.
+      rewrite Ep, Ety. change (59 =? c_semi) with true. cbn [negb]. unfold ret. cbn [elab_values print_values map concat].
+      rewrite app_nil_r, blen_nil, !Z.add_0_r. exists tk. split; [reflexivity|exact Ety].
+    - apply Forall_cons_iff in Hw. destruct Hw as (Hv & Hw'). destruct f as [|f]; [cbn in Hf; lia|].
+      cbn [print_values map concat] in HT. fold (print_values vs) in HT. unfold print_value at 1 in HT.
+      destruct (print_values_head vs (59 :: c2 :: r)) as (T' & ET').
+      assert (ETAIL : TAIL = print_num (fst v) ++ 32 :: 34 :: snd v ++ 34 :: 32 :: T').
+      { cbn [app] in HT. injection HT as ->. rewrite <- !app_assoc. cbn [app]. rewrite <- !app_assoc. cbn [app]. rewrite ET'. reflexivity. }
+      subst TAIL.
+      assert (HFv : (length (print_num (fst v)) + length (snd v) + length (print_values vs) + 12 < F)%nat).
+      { cbn [print_values map concat] in HF. fold (print_values vs) in HF. unfold print_value at 1 in HF.
+        repeat (rewrite app_length in HF || cbn [length] in HF). lia. }
+      pose proof (blen_nonneg (print_num (fst v))). pose proof (blen_nonneg (snd v)).
+      cbn [value_descriptions_loop]. unfold bind at 1.
+      destruct (value_peek v 34 (snd v ++ 34 :: 32 :: T') last P l K ll Hv) as (t & st1 & Ep & Hty); try side.
+      rewrite Ep. assert (Ens : (t_typ t =? c_semi) = false) by (destruct Hty as [-> | ->]; reflexivity).
+      rewrite Ens. cbn [negb]. unfold bind at 1. rewrite (pvd_after_peek _ _ _ Ep).
+      rewrite value_desc_ws by side. rewrite stepS_plain by discriminate.
+      destruct (IH f ({| vd_pos := {| p_line := l; p_column := K + 1; p_offset := P |}; vd_value := num_bits (fst v);
+                         vd_description := snd v |} :: racc) T' c2 r [32]
+                  (P + blen (print_num (fst v)) + blen (snd v) + 3 + 1) l (K + blen (print_num (fst v)) + blen (snd v) + 3 + 1) ll off
+                  (eq_sym ET') Hw' Hc2 ltac:(cbn in Hf; lia) ltac:(lia) ltac:(lia) ltac:(lia)) as (tk & E & Ety).
+      exists tk. split; [|exact Ety]. rewrite E. cbn [rev elab_values]. rewrite <- app_assoc. cbn [app].
+      f_equal.
+      + f_equal. f_equal; [f_equal; f_equal; lia|f_equal; lia].
+      + cbn [print_values map concat]. fold (print_values vs). unfold print_value at 1 2.
+        repeat (rewrite blen_app || rewrite blen_cons). rewrite blen_nil. f_equal. apply stepS_eq; lia.
+  Qed.
+
   (** ------------------------------------------------------------ the whole file *)
 
   Lemma is_ident_version : is_ident kw_version.
@@ -1352,7 +1550,7 @@ Section RT.
     exists kw c r, print_def d ++ rest = kw ++ c :: r /\ is_ident kw /\ ascii c /\ idc c = false
                    /\ (length kw < length (print_def d))%nat /\ bytes_eqb kw kw_signal = false.
   Proof.
-    intros d rest Hw. destruct d as [s|[[b [[b1 b2]|]]|]|ns|mi mn msz mtx sigs|kw ts]; cbn [print_def wf_sdef] in *.
+    intros d rest Hw. destruct d as [s|[[b [[b1 b2]|]]|]|ns|mi mn msz mtx sigs|kw ts|co ct|[vi|] vn vvs|tn tvs|svi svn svc svt|xi xtxs|en et emn emx eu einit ei eacc enode enodes|dn dsz]; cbn [print_def wf_sdef] in *.
     - exists kw_version, 32, (34 :: s ++ [34; 10] ++ rest). rewrite <- app_assoc. cbn [app]. rewrite <- app_assoc.
       split; [reflexivity|]. split; [exact is_ident_version|]. split; [unfold ascii; lia|]. split; [reflexivity|].
       split; [|reflexivity]. rewrite app_length. cbn [length]. lia.
@@ -1415,7 +1613,7 @@ Section RT.
                        /\ Ready (line + def_lines d) (off + blen (print_def d)) rest st2.
   Proof.
     intros d rest defs line off Hw Htop HF st (_ & HR). pose proof (rest_top_ok rest Htop) as Hok.
-    destruct d as [s|[[b [[b1 b2]|]]|]|ns|mi mn msz mtx sigs|kw ts]; cbn [wf_sdef elab_def] in *.
+    destruct d as [s|[[b [[b1 b2]|]]|]|ns|mi mn msz mtx sigs|kw ts|co ct|[vi|] vn vvs|tn tvs|svi svn svc svt|xi xtxs|en et emn emx eu einit ei eacc enode enodes|dn dsz]; cbn [wf_sdef elab_def] in *.
     - (* VERSION *)
       destruct (HR kw_version 32 (34 :: s ++ 34 :: 10 :: rest)) as (ll & Ep);
         [cbn [print_def]; rewrite <- app_assoc; cbn [app]; rewrite <- app_assoc; reflexivity
@@ -1516,7 +1714,7 @@ Proof.
   induction ds as [|d ds IH]; intros Hw; cbn [print length]; [lia|]. inversion Hw as [|? ? Hd Hw']; subst.
   rewrite app_length. specialize (IH Hw').
   assert (1 <= length (print_def d))%nat.
-  { destruct d as [s|[[b [[b1 b2]|]]|]|ns|mi mn msz mtx sigs|kw ts]; cbn [print_def]; rewrite !app_length; cbn [length]; lia. }
+  { destruct d as [s|[[b [[b1 b2]|]]|]|ns|mi mn msz mtx sigs|kw ts|co ct|[vi|] vn vvs|tn tvs|svi svn svc svt|xi xtxs|en et emn emx eu einit ei eacc enode enodes|dn dsz]; cbn [print_def]; rewrite !app_length; cbn [length]; lia. }
   lia.
 Qed.
 
